@@ -15,7 +15,8 @@
 (*    a stop_immediately (or the consumer is the manual driver);           *)
 (*  - reduce_stream completes with the fold over precisely those elements, *)
 (*    with an error iff a source (outside a take_until trigger) or a       *)
-(*    cleanup reported one, never with done, at most once;                 *)
+(*    cleanup reported one (and the error completion carries an            *)
+(*    exception), never with done, at most once;                           *)
 (*  - per source stream: next() never overlaps next() or cleanup(),        *)
 (*    cleanup() starts at most once and only when no next() is outstanding,*)
 (*    and the result is delivered only when every source whose next() was  *)
@@ -30,6 +31,7 @@
 (***************************************************************************)
 EXTENDS Integers, Sequences, FiniteSets, TLC, TraceIO
 MaxN == 10
+NullError == 0 - 997      \* the harness's code for an error completion whose exception_ptr is null
 NodeIds == 1..MaxN
 NoPipe == [cons |-> 0, kind |-> <<>>, kids |-> <<>>, arg |-> <<>>, root |-> 0]
 VARIABLES l, pipe, ph, nexted, yielded, ended, calls, keeps, elems, nres, stopped, started, liveOps, seenOps,
@@ -140,6 +142,7 @@ Elem == /\ Is("Elem") /\ nres = 0
 Result == /\ Is("Result") /\ ~Manual /\ started /\ nres = 0
           /\ AllClean
           /\ E.ch \in {"v", "e"} /\ (E.ch = "e") = errSeen
+          /\ E.ch = "e" => E.v # NullError
           /\ E.ch = "v" => E.v = (IF pipe.cons = 0 THEN Fold(elems) ELSE 0)
           /\ ~CutPossible => NothingDropped
           /\ nres' = 1
@@ -148,13 +151,14 @@ DrvNextDone == /\ Is("DrvNextDone") /\ Manual /\ drvOut /\ nres = 0 /\ drvOut' =
                /\ UNCHANGED <<pipe, ph, nexted, yielded, ended, calls, keeps, elems, nres, stopped, started, liveOps, seenOps, errSeen>>
 DrvCleanupDone == /\ Is("DrvCleanupDone") /\ Manual /\ nres = 0 /\ ~drvOut
                   /\ AllClean
-                  /\ E.ch \in {"d", "e"} /\ (E.ch = "e") => errSeen
+                  /\ E.ch \in {"d", "e"} /\ (E.ch = "e") => (errSeen /\ E.v # NullError)
                   /\ nres' = 1
                   /\ UNCHANGED <<pipe, ph, nexted, yielded, ended, calls, keeps, elems, stopped, started, liveOps, seenOps, drvOut, errSeen>>
 QuiescentEv == /\ Is("Quiescent")
                /\ (stopped /\ Manual /\ RootImm) => ~drvOut
-               /\ (E.pending = 0 /\ started /\ ~Manual) => nres = 1
-               /\ (E.pending = 0 /\ Manual) => ~drvOut
+               \* (the outstanding next() of a never_stream is not visible to the harness)
+               /\ (E.pending = 0 /\ started /\ ~Manual /\ ~Has("never")) => nres = 1
+               /\ (E.pending = 0 /\ Manual /\ ~Has("never")) => ~drvOut
                /\ UNCHANGED <<pipe, ph, nexted, yielded, ended, calls, keeps, elems, nres, stopped, started, liveOps, seenOps, drvOut, errSeen>>
 EndEv == /\ Is("End")
          /\ E.live = 0 /\ E.bad = 0 /\ liveOps = {} /\ E.pending = 0
